@@ -33,6 +33,7 @@ def run(tier, t0):
         eng.run_all(collect=False)
         gate.run(f, rep, cfg, lambda b, fam: fam in ("add", "sub", "neg") and "int::Int<" not in (b.get("impl_self") or b["id"]),
                  "c04.gate", "checked_add_sub_operations")
+        c15.run_modes(f, rep, cfg, prefix="c04.mode", families={"add", "sub", "neg"}, counter="add_sub_operator_forwarders")
         c06.run_zip(f, rep, cfg, eng, scope=_arith_scope, prefix="c04.zip", counter="mixed_width_arithmetic_bodies",
                     require_eq=True, what="arithmetic routine")
     stale = {}
@@ -42,6 +43,7 @@ def run(tier, t0):
     rep.floor("carry_returning_calls_outside_modular", 230)
     rep.floor("mixed_width_arithmetic_bodies", 10)
     rep.floor("checked_add_sub_operations", 8)
+    rep.floor("add_sub_operator_forwarders", 15)
     rep.floor("zip_call_bodies_positive_control", 3)
     return finish(rep, tier, t0,
                   explanation="one structural clause of C04 (and of the multi-limb parts of C03/C07): a carry that is computed "
